@@ -1612,7 +1612,8 @@ skip_digit_separator(int c) {
   get();
   c = peek();
 
-  if (isdigit(c)) {
+  if (isxdigit(c)) {
+    // (a separator may also stand between hexadecimal digits: 0xFF'FF)
     return c;
   }
 
